@@ -489,6 +489,8 @@ def run_c07(ctx):
             # very long gaps between two packets of every PID: more null packets than any 16-bit packet count holds, once and twice over
             for cnt in (70000, 140000):
                 vs.append({'t': 'insert', 'at': rnd_py.randrange(1, n), 'k': 'null', 'pid': pids[0], 'n': cnt})
+            # ... and 140 000 different packets of a foreign PID that never starts a unit (all of them pending at once)
+            vs.append({'t': 'insert', 'at': rnd_py.randrange(1, n), 'k': 'headless', 'pid': 0x1abd, 'n': 140000})
         s['variants'] = vs
         s['kind'] = 'merge'
         scs.append(s)
